@@ -212,15 +212,6 @@ pub enum PushVariant {
     Spill(usize),
 }
 impl PushVariant {
-    pub fn tag(&self) -> String {
-        match self {
-            PushVariant::Plain => "plain".into(),
-            PushVariant::Tracked => "tracked".into(),
-            PushVariant::MatDistinct => "matdistinct".into(),
-            PushVariant::SpillNoMgr => "spillnomgr".into(),
-            PushVariant::Spill(t) => format!("spill{t}"),
-        }
-    }
     pub fn parse(s: &str) -> Option<PushVariant> {
         Some(match s {
             "plain" => PushVariant::Plain,
